@@ -16,7 +16,9 @@ type NRProver struct {
 	Rand     map[string]*big.Int // alpha, beta, delta, epsilon, zeta
 	// ForceC, if set, replaces C_r and C_u by this value (0 or N: not a group element)
 	ForceC *big.Int
-	cr, cu *big.Int
+	// ForceCr / ForceCu replace one commitment alone
+	ForceCr, ForceCu *big.Int
+	cr, cu           *big.Int
 }
 
 // NewNRProver draws honest randomness. alphaRand is the randomiser shared with the credential proof.
@@ -55,10 +57,24 @@ func (p *NRProver) Commit() []*big.Int {
 			return []*big.Int{p.cr, p.cu, p.Nu, z(), z(), z()}
 		}
 	}
+	// one commitment alone replaced by a value that is 0 mod n: the relations in which it is a base collapse to 0 on the
+	// verifier's side (the prover puts 0 into those slots), the others are proved honestly
+	if p.ForceCr != nil {
+		p.cr = new(big.Int).Set(p.ForceCr)
+	}
+	if p.ForceCu != nil {
+		p.cu = new(big.Int).Set(p.ForceCu)
+	}
 	neg := func(x *big.Int) *big.Int { return new(big.Int).Neg(x) }
 	tcr := mulmod(n, PowSigned(g, p.Rand["epsilon"], n), PowSigned(h, p.Rand["zeta"], n))
 	tnu := mulmod(n, PowSigned(p.cu, p.Rand["alpha"], n), PowSigned(h, neg(p.Rand["beta"]), n))
 	tone := mulmod(n, PowSigned(p.cr, p.Rand["alpha"], n), PowSigned(g, neg(p.Rand["beta"]), n), PowSigned(h, neg(p.Rand["delta"]), n))
+	if p.ForceCr != nil && new(big.Int).Mod(p.cr, n).Sign() == 0 {
+		tcr, tone = big.NewInt(0), big.NewInt(0)
+	}
+	if p.ForceCu != nil && new(big.Int).Mod(p.cu, n).Sign() == 0 {
+		tnu = big.NewInt(0)
+	}
 	return []*big.Int{p.cr, p.cu, p.Nu, tcr, tnu, tone}
 }
 
